@@ -197,6 +197,22 @@ impl Op {
             let mut next_param = parameters.next(def);
             next_param.definition = crate::token::remove_comments(&macro_definition);
             let mut op = Op::op(next_param, ctx)?.handle_inversion(inverted)?;
+            // A body consisting of a single directional step, written without any
+            // step separator (`foo omit_fwd`): The modifier has ended up as a modifier
+            // of the macro step, and refers to the directions of the enclosing
+            // pipeline. With the two directions of the macro step exchanged,
+            // "skipped forward" turns into "skipped inverse", and vice versa (as is
+            // the case when the body is written as a one-step pipeline, `foo omit_fwd |`)
+            if inverted {
+                let omit_fwd = op.params.boolean.remove("omit_fwd");
+                let omit_inv = op.params.boolean.remove("omit_inv");
+                if omit_fwd {
+                    op.params.boolean.insert("omit_inv");
+                }
+                if omit_inv {
+                    op.params.boolean.insert("omit_fwd");
+                }
+            }
             for key in ["omit_fwd", "omit_inv"] {
                 if given(key) {
                     op.params.boolean.insert(key);
